@@ -11,6 +11,7 @@ THEOREMS = [(M_, "NQ.C15." + n) for n in [
     "return_msg_roundtrip", "every_fixed_class_dispatched", "subroutine_msg_roundtrip",
     "array_msg_roundtrip_generic", "array_msg_roundtrip", "unknown_type_rejected", "short_buffer_rejected",
     "observe_id", "serialize_depends_on_current_values", "roundtrip_after_update", "fixed_roundtrip_after_update",
+    "decode_unaffected_by_edits",
     "layouts_wf", "tables_wf", "probes_match"]]
 TRANSLATORS = ["msg_layouts", "instr_table"]
 LEVEL_TEXT = ('Lean theorems: (1) struct_roundtrip — for ANY struct layout with disjoint in-size leaf fields '
@@ -60,7 +61,9 @@ def run(ctx):
                 "patterns; subroutine messages from random real subroutines; SDK-produced host messages; "
                 "histories: one object observed (bytes/len) and modified step by step (attribute assignment; "
                 "in-place item assignment/append/pop/insert/del on array values), checked against its current "
-                "field values; malformed: every truncation of valid messages, wrong type bytes, bad OptionalInt tags, "
+                "field values; decode-side histories: decode, edit decoded objects in place, decode other / the same "
+                "bytes / empty arrays again, compare with the reference decode, no shared mutable parts; "
+                "malformed: every truncation of valid messages, wrong type bytes, bad OptionalInt tags, "
                 "negative / too large lengths, random bytes. Non-trivial = a message with some non-zero field "
                 "or a non-empty array / malformed input; distinct by the message JSON / byte string")
     rng = ctx.rng
@@ -195,6 +198,33 @@ def run(ctx):
                                  "input": {"dir": direction, "start": mj, "updates": us, "detail": bad}})
         if tag.endswith("witness") or (len(res.samples) < 7 and res.evaluations % 301 == 0):
             res.samples.append({"dir": direction, "start": mj, "updates": us, "bytes": rb[:60]})
+
+    # ---------------------------------------------------------------- decode-side histories
+    # decoded objects are edited in place by their holder, then more bytes (other ones, the same ones,
+    # empty arrays) are decoded: every decode must equal the reference decode of its bytes, decoded
+    # messages must not share mutable parts, and an edit of one must not show up in another
+    dpool = [(d, mj, rb) for (d, mj, tag), rb in zip(msgs, valid_bytes) if rb is not None and len(rb) <= 400]
+    dpool += [("ret", {"k": "arr", "a": a, "v": []}, H.real_serialize({"k": "arr", "a": a, "v": []})[0])
+              for a in (0, 1, -1, 7, 2 ** 31 - 1)]
+    n_dh = 1500 if thorough else 300
+    dh = [H.run_decode_history(dpool, rng, rng.randrange(3, 10)) for _ in range(n_dh)]
+    reqs = [{"op": "msg.hist", "m": mj, "us": us} for steps, problems, live in dh for (_, mj, us, _) in live]
+    outs = iter(ctx.driver.batch(reqs))
+    for steps, problems, live in dh:
+        res.evaluations += 1
+        res.count("decode-history")
+        res.nontrivial.add(("dhist", json.dumps(steps, sort_keys=True)[:3000]))
+        for k, (direction, mj, us, obj) in enumerate(live):
+            mh = next(outs)
+            cur = H.msg_to_json(obj)
+            if mh.get("m") != cur:
+                problems.append({"what": "a decoded message changed although only OTHER decoded messages were "
+                                         "edited (or its own edits were lost)", "decoded_index": k,
+                                 "expected_now": mh.get("m"), "is_now": cur})
+        if problems:
+            res.failures.append({"what": "decode-side history: " + problems[0]["what"], "kf": None,
+                                 "input": {"steps": steps[:40], "problems": problems[:4]}})
+    res.samples.append({"decode_history": dh[0][0][:6]})
 
     # ---------------------------------------------------------------- malformed stream
     mal = []  # (direction, bytes, tag)
